@@ -1,7 +1,6 @@
 import BeyondVerif.Lemmas.Registry
 import BeyondVerif.Generated.RegSites
 import BeyondVerif.Generated.Graphs
-import BeyondVerif.Model.RegistrySpec
 
 /-!
 # C20 — the registry layer: a connected pair never raises `Unknown transformation`
@@ -27,6 +26,7 @@ do WITH a route (`Model/Registry.lean`): node identity distinct from node name, 
   (`decide`).  `TopocentricOrientation.__init__` ALONE does not (`Witness/C20.lean`).
 * `builtin_links_have_methods`: every link executed at import of `beyond.frames.orient` has a method in the
   class body of `Orientation` (regenerated tables, `decide`).
+* `small_named_forests_exact` (in `Props/C20Named.lean`) : forests on ≤ 3 nodes under every assignment of shared names.
 * `fresh_names_keep_methods`  : operations whose keys mention a name outside `S` change no lookup of a key
   over `S` from any object (registering under new names leaves the resolution of old conversions unchanged).
 -/
@@ -289,13 +289,6 @@ theorem builtin_links_have_methods :
     (BeyondVerif.Generated.orientHist.all (fun e =>
       BeyondVerif.Generated.orientMethods.contains (e.1, e.2) ||
       BeyondVerif.Generated.orientMethods.contains (e.2, e.1))) = true := by decide
-
-/-- nodes sharing names: every insertion order and orientation of every labelled forest on ≤ 3 nodes under EVERY
-assignment of names (27 on 3 nodes), every prefix: each name carried by a connected node is routed along a simple chain
-of existing links to a nearest node of that name, every other name is `Unknown` (kernel `decide`; larger cases are
-enumerated / sampled on the real code and compared with the model) -/
-theorem small_named_forests_exact : (allNamedForestsOK 2 && allNamedForestsOK 3) = true := by
-  decide +kernel
 
 /-! ## non-vacuity: a station below an orientation of a SUBCLASS, then a same-named second station -/
 
